@@ -77,6 +77,11 @@ CHECKS["C06"] = ("exploration",
   "30,000 (300,000) generated table definitions of 1..32 columns, all three close modes.",
   "Trusted: the independent decoder; the representable-core predicate (in_core) only says what must be accepted, refusal is never demanded outside the clearly unrepresentable set.",
   "DESIGN.md section 4, C06")
+CHECKS["C04"] = ("exploration",
+  "proptest-generated valid prefixes followed by one invalid call from a 24-kind catalogue (late-bound to the reached state); metamorphic oracle: snapshot, reopened snapshot and independently decoded string pool are identical before and after every call that returns Err",
+  "12,000 (150,000) generated (state, invalid call) pairs; every catalogue entry is exercised hundreds of times per quick run (see classes in the evidence).",
+  "Trusted: the observer and the independent decoder. Calls that unexpectedly return Ok are left to C06/C07/C20.",
+  "DESIGN.md section 4, C04")
 NOT_YET = {}
 
 def main():
